@@ -8,14 +8,14 @@
 From Coq Require Import List NArith ZArith Bool.
 Import ListNotations.
 From Emu.Common Require Import Bytes Str StrProofs.
-From Emu.BT Require Import Types Mutate Server AdminProofs CellSpec Disk DiskProofs.
+From Emu.BT Require Import Types Mutate Server AdminProofs CellSpec Check Disk DiskCheck DiskProofs.
 
 Theorem C08_srv_eq_is_equality : forall s1 s2, asorted s1 -> asorted s2 -> srv_eq s1 s2 -> s1 = s2.
 Proof. exact srv_eq_sorted_eq. Qed.
 Print Assumptions C08_srv_eq_is_equality.
 
 (* ---- 1. the invariant: one definition file per live table holding exactly its families;
-        directories without a live table never under a live name ---- *)
+        directories without a live table (they may hold rows) never under a live name ---- *)
 Theorem C08_disk_inv_step : forall d c, disk_inv d -> disk_inv (fst (fst (dstep d c))).
 Proof. exact disk_inv_step. Qed.
 Print Assumptions C08_disk_inv_step.
@@ -85,8 +85,9 @@ Print Assumptions C08_restarted_continues.
    restart im is srv_eq to the restart before or the restart after.  Proved with the guard
    [no_effective_drop]: the request is not a ModifyFamilies that both rewrites rows (drops a family
    holding cells) and changes the families.  The guard is exact (C08_crash_modify_first_point_exact),
-   and the unguarded statement is false of the code (C08_crash_atomic_drop_family_refuted, BT-18). *)
-Theorem C08_crash_atomic_partial : forall d c, disk_inv d -> orphans_empty d -> no_effective_drop (ds_mem d) c ->
+   and the unguarded statement is false of the code (C08_crash_atomic_drop_family_refuted, BT-18).
+   No hypothesis on the directories left without a definition: they may hold rows. *)
+Theorem C08_crash_atomic_partial : forall d c, disk_inv d -> no_effective_drop (ds_mem d) c ->
   forall nm im, In (nm, im) (snd (dstep d c)) ->
   srv_eq (restart im) (restart (image_of d)) \/ srv_eq (restart im) (restart (image_of (fst (fst (dstep d c))))).
 Proof. exact crash_atomic_partial. Qed.
@@ -142,21 +143,52 @@ Theorem C08_crash_atomic_drop_family_refuted :
 Proof. exact crash_atomic_drop_family_refuted. Qed.
 Print Assumptions C08_crash_atomic_drop_family_refuted.
 
-(* the second hypothesis of C08_crash_atomic_partial (directories without a definition are empty)
-   holds after every history of requests and restarts at boundaries and crash points
-   (C08_reachable_inv) but is needed: with an orphan directory holding rows - what a kill INSIDE
-   DeleteTable, which has no instrumented point, would leave - a CreateTable killed at
-   disk.meta.renamed restarts serving the old rows *)
-Theorem C08_crash_atomic_create_orphan_refuted :
-  disk_inv ex_orphan_state /\ ~ orphans_empty ex_orphan_state
-  /\ exists c im,
-       In (s_meta_renamed, im) (snd (dstep ex_orphan_state c))
-       /\ ~ srv_eq (restart im) (restart (image_of ex_orphan_state))
-       /\ ~ srv_eq (restart im) (restart (image_of (fst (fst (dstep ex_orphan_state c))))).
-Proof. exact crash_atomic_create_orphan_refuted. Qed.
-Print Assumptions C08_crash_atomic_create_orphan_refuted.
+(* CreateTable first removes a leftover directory: a kill at any of its four crash points restarts
+   to the state before or the state after, whatever the directories without a definition hold
+   (in particular the rows of an earlier table of that name whose DeleteTable was killed) *)
+Theorem C08_crash_atomic_create_with_orphan : forall d parent tid fams now coins, disk_inv d ->
+  let c := mkCall (BCreateTable parent tid fams) now coins in
+  let d' := fst (fst (dstep d c)) in
+  forall nm im, In (nm, im) (snd (dstep d c)) ->
+  srv_eq (restart im) (restart (image_of d)) \/ srv_eq (restart im) (restart (image_of d')).
+Proof. exact crash_atomic_create_with_orphan. Qed.
+Print Assumptions C08_crash_atomic_create_with_orphan.
 
-(* requests without crash points: row writes, deletes by prefix, RMW, CAM, GC, reads, DeleteTable *)
+(* point by point: absent at disk.create.cleaned and disk.meta.tmp (state before), defined and empty
+   at disk.meta.renamed and disk.db.removed (state after); no directory left at the first and last *)
+Theorem C08_create_crash_points_exact : forall d parent tid fams now coins, disk_inv d ->
+  let name := table_name parent tid in
+  let c := mkCall (BCreateTable parent tid fams) now coins in
+  br_code (snd (fst (dstep d c))) = cOK ->
+  exists imc im1 im2 im3,
+    snd (dstep d c) = [(s_create_cleaned, imc); (s_meta_tmp, im1); (s_meta_renamed, im2); (s_db_removed, im3)]
+    /\ srv_eq (restart imc) (ds_mem d) /\ srv_eq (restart im1) (ds_mem d)
+    /\ alookup name (restart imc) = None /\ alookup name (restart im1) = None
+    /\ alookup name (restart im2) = Some (mkTable (make_fams fams) [])
+    /\ alookup name (restart im3) = Some (mkTable (make_fams fams) [])
+    /\ alookup name (im_dirs imc) = None /\ alookup name (im_dirs im3) = None.
+Proof. exact create_crash_points_exact. Qed.
+Print Assumptions C08_create_crash_points_exact.
+
+(* DeleteTable killed between the removal of the definition file and of the directory
+   (disk.delete.undefined): the restarted server is the state AFTER the request - the table is
+   absent, every other table unchanged; the directory is still there with the table's rows, an
+   orphan of the started server *)
+Theorem C08_crash_in_delete_is_after : forall d name now coins, disk_inv d ->
+  let c := mkCall (BDeleteTable name) now coins in
+  br_code (snd (fst (dstep d c))) = cOK ->
+  let d' := fst (fst (dstep d c)) in
+  exists im t, snd (dstep d c) = [(s_delete_undefined, im)]
+    /\ alookup name (ds_mem d) = Some t
+    /\ srv_eq (restart im) (restart (image_of d'))
+    /\ alookup name (restart im) = None
+    /\ (forall n, n <> name -> alookup n (restart im) = alookup n (restart (image_of d)))
+    /\ alookup name (im_dirs im) = Some (t_rows t)
+    /\ alookup name (ds_orphans (boot im)) = Some (t_rows t).
+Proof. exact crash_in_delete_is_after. Qed.
+Print Assumptions C08_crash_in_delete_is_after.
+
+(* requests without crash points: row writes, deletes by prefix, RMW, CAM, GC, reads *)
 Theorem C08_no_crash_points : forall d c, disk_special (cl_req c) = false -> snd (dstep d c) = [].
 Proof. exact no_crash_points. Qed.
 Print Assumptions C08_no_crash_points.
@@ -168,16 +200,20 @@ Theorem C08_row_requests_no_crash_points : forall d now coins,
   /\ (forall tbl key rules, snd (dstep d (mkCall (BReadModifyWrite tbl key rules) now coins)) = [])
   /\ (forall tbl pfx, snd (dstep d (mkCall (BDropRowRange tbl false pfx) now coins)) = [])
   /\ (forall tbl, snd (dstep d (mkCall (BRunGC tbl) now coins)) = [])
-  /\ (forall tbl keys ranges f limit, snd (dstep d (mkCall (BReadRows tbl keys ranges f limit) now coins)) = [])
-  /\ (forall tname, snd (dstep d (mkCall (BDeleteTable tname) now coins)) = []).
+  /\ (forall tbl keys ranges f limit, snd (dstep d (mkCall (BReadRows tbl keys ranges f limit) now coins)) = []).
 Proof. exact row_requests_no_crash_points. Qed.
 Print Assumptions C08_row_requests_no_crash_points.
 
 (* ---- repeated crash/restart cycles: states reachable by requests, restarts at request
         boundaries and restarts on the image of any crash point ---- *)
-Theorem C08_reachable_inv : forall d, dreach d -> disk_inv d /\ orphans_empty d.
+Theorem C08_reachable_inv : forall d, dreach d -> disk_inv d.
 Proof. exact dreach_inv. Qed.
 Print Assumptions C08_reachable_inv.
+
+(* the image at every crash point is a well-formed directory image *)
+Theorem C08_crash_image_wf : forall d c nm im, disk_inv d -> In (nm, im) (snd (dstep d c)) -> image_wf im.
+Proof. exact crash_image_wf. Qed.
+Print Assumptions C08_crash_image_wf.
 
 Theorem C08_crash_restart_cycles : forall d, dreach d ->
   restart (image_of d) = ds_mem d
@@ -205,8 +241,20 @@ Theorem C08_deleted_table_stays_deleted : forall d name now coins, dreach d ->
 Proof. exact deleted_table_stays_deleted. Qed.
 Print Assumptions C08_deleted_table_stays_deleted.
 
-(* a (re-)created table restarts empty - also at the crash points of the create - and afterwards
-   holds exactly what was written since *)
+(* also when the DeleteTable itself is killed at its crash point (directory with rows left behind) *)
+Theorem C08_killed_delete_stays_deleted : forall d name now coins, dreach d ->
+  let c := mkCall (BDeleteTable name) now coins in
+  forall nm im, In (nm, im) (snd (dstep d c)) ->
+  dreach (boot im) /\ alookup name (restart im) = None
+  /\ forall d2, reach_nc name (boot im) d2 ->
+       alookup name (restart (image_of d2)) = None
+       /\ forall c2 nm2 im2, not_create name c2 -> In (nm2, im2) (snd (dstep d2 c2)) -> alookup name (restart im2) = None.
+Proof. exact killed_delete_stays_deleted. Qed.
+Print Assumptions C08_killed_delete_stays_deleted.
+
+(* for every reachable state, also one with a directory holding old rows under that name
+   (C08_dreach_orphan_with_rows): a (re-)created table restarts empty - also at the crash points of
+   the create - and afterwards holds exactly what was written since *)
 Theorem C08_recreated_table_restarts_empty : forall d parent tid fams now coins, dreach d ->
   let name := table_name parent tid in
   alookup name (ds_mem d) = None ->
@@ -260,7 +308,9 @@ Theorem C08_crash_point_names : forall d c,
   map fst (snd (dstep d c)) =
   if negb (N.eqb (br_code (snd (fst (dstep d c)))) cOK) then [] else
   match cl_req c with
-  | BCreateTable _ _ _ => [s_meta_tmp; s_meta_renamed; s_db_removed]   (* SetTableMeta, then newDiskDb(nuke) *)
+  | BCreateTable _ _ _ => [s_create_cleaned; s_meta_tmp; s_meta_renamed; s_db_removed]
+                                                   (* RemoveAll(dir), SetTableMeta, then newDiskDb(nuke) *)
+  | BDeleteTable _ => [s_delete_undefined]                             (* Remove(definition) | RemoveAll(dir) *)
   | BModifyFamilies _ _ => [s_meta_tmp; s_meta_renamed]                (* SetTableMeta *)
   | BDropRowRange _ true _ => [s_clear_closed; s_db_removed]           (* Clear: Close, then newDiskDb(nuke) *)
   | _ => []
@@ -268,12 +318,31 @@ Theorem C08_crash_point_names : forall d c,
 Proof. exact crash_point_names. Qed.
 Print Assumptions C08_crash_point_names.
 
+(* ---- the checker (BT/DiskCheck.v) stays inside the theory: the state the next program segment
+        starts in (clean stop, or kill at the marked crash point of the last request) is reachable ---- *)
+Theorem C08_next_boot_dreach : forall d0 c crash, dreach d0 ->
+  dreach (next_boot (fst (fst (dstep d0 c))) (snd (dstep d0 c)) crash).
+Proof. exact next_boot_dreach. Qed.
+Print Assumptions C08_next_boot_dreach.
+
+Theorem C08_dcheck_segment_dreach : forall names cs obs d i last, dreach d -> last_of d last ->
+  let r := dcheck_segment names d i last cs obs in
+  dreach (fst (fst r)) /\ last_of (fst (fst r)) (snd (fst r)).
+Proof. exact dcheck_segment_dreach. Qed.
+Print Assumptions C08_dcheck_segment_dreach.
+
+Theorem C08_dcheck_next_segment_dreach : forall names cs obs crash d i, dreach d ->
+  let r := dcheck_segment names d i [] cs obs in
+  dreach (next_boot (fst (fst r)) (snd (fst r)) crash).
+Proof. exact dcheck_next_segment_dreach. Qed.
+Print Assumptions C08_dcheck_next_segment_dreach.
+
 (* ---- non-vacuity: a program with create, writes, clear, modify, delete, re-create ---- *)
 Example C08_prog_acks :
   map (fun r => (br_code (fst r), map fst (snd r))) (snd (drun init_dstate ex_prog))
-  = [ (cOK, [s_meta_tmp; s_meta_renamed; s_db_removed]); (cOK, []); (cOK, []);
-      (cOK, [s_clear_closed; s_db_removed]); (cOK, []); (cOK, [s_meta_tmp; s_meta_renamed]); (cOK, []);
-      (cOK, [s_meta_tmp; s_meta_renamed; s_db_removed]); (cOK, []) ].
+  = [ (cOK, [s_create_cleaned; s_meta_tmp; s_meta_renamed; s_db_removed]); (cOK, []); (cOK, []);
+      (cOK, [s_clear_closed; s_db_removed]); (cOK, []); (cOK, [s_meta_tmp; s_meta_renamed]); (cOK, [s_delete_undefined]);
+      (cOK, [s_create_cleaned; s_meta_tmp; s_meta_renamed; s_db_removed]); (cOK, []) ].
 Proof. vm_compute. reflexivity. Qed.
 
 (* (table, (families, row keys)) served by a restart at each of the 10 request boundaries *)
@@ -294,20 +363,20 @@ Proof. vm_compute. reflexivity. Qed.
 (* ... and at each crash point inside each request: always the boundary before or after *)
 Example C08_prog_crash_points :
   map (fun r => map (fun p => ex_view (restart (snd p))) (snd r)) (snd (drun init_dstate ex_prog))
-  = [ [ []; [(ex_name, ([[102%N]; [103%N]], []))]; [(ex_name, ([[102%N]; [103%N]], []))] ];
+  = [ [ []; []; [(ex_name, ([[102%N]; [103%N]], []))]; [(ex_name, ([[102%N]; [103%N]], []))] ];
       []; [];
       [ [(ex_name, ([[102%N]; [103%N]], [[97%N]; [98%N]]))]; [(ex_name, ([[102%N]; [103%N]], []))] ];
       [];
       [ [(ex_name, ([[102%N]; [103%N]], [[99%N]]))]; [(ex_name, ([[102%N]; [103%N]; [104%N]], [[99%N]]))] ];
-      [];
-      [ []; [(ex_name, ([[103%N]], []))]; [(ex_name, ([[103%N]], []))] ];
+      [ [] ];
+      [ []; []; [(ex_name, ([[103%N]], []))]; [(ex_name, ([[103%N]], []))] ];
       [] ].
 Proof. vm_compute. reflexivity. Qed.
 
 (* the hypotheses of the theorems are met along the program *)
 Example C08_prog_hyps :
   let d := fst (drun init_dstate (firstn 7 ex_prog)) in
-  dreach d /\ disk_inv d /\ orphans_empty d /\ alookup ex_name (ds_mem d) = None
+  dreach d /\ disk_inv d /\ alookup ex_name (ds_mem d) = None
   /\ no_effective_drop (ds_mem (fst (drun init_dstate (firstn 5 ex_prog)))) (nth 5 ex_prog (ex_put 0 0)).
 Proof. exact ex_prog_hyps. Qed.
 
@@ -327,8 +396,42 @@ Proof. vm_compute. repeat split; reflexivity. Qed.
    server has it as an orphan, and the retried create and a write work *)
 Example C08_crash_then_continue :
   let c := ex_create ex_fg in
-  let im := snd (nth 0 (snd (dstep init_dstate c)) (s_meta_tmp, mkImage [] [])) in
+  let im := snd (nth 1 (snd (dstep init_dstate c)) (s_meta_tmp, mkImage [] [])) in
   im = mkImage [] [(ex_name, [])]
   /\ ds_orphans (boot im) = [(ex_name, [])]
   /\ ex_view (restart (image_of (fst (drun (boot im) [c; ex_put 97 102])))) = [(ex_name, ([[102%N]; [103%N]], [[97%N]]))].
 Proof. vm_compute. repeat split; reflexivity. Qed.
+
+(* a reachable state with a directory holding a row and no definition: create, write, DeleteTable
+   killed at disk.delete.undefined, start (what the checker's next_boot computes for that marker) *)
+Example C08_dreach_orphan_with_rows :
+  dreach ex_killed_delete /\ disk_inv ex_killed_delete
+  /\ ex_killed_delete = mkDState [] [] [(ex_name, ex_row97)]
+  /\ ~ orphans_empty ex_killed_delete
+  /\ ex_killed_delete = next_boot (fst (fst (dstep ex_before_delete ex_delete))) (snd (dstep ex_before_delete ex_delete))
+                                   (Some s_delete_undefined).
+Proof. exact dreach_orphan_with_rows. Qed.
+
+(* CreateTable on that state: (families, row keys) of the table at the four crash points and after *)
+Example C08_create_over_orphan_with_rows :
+  let view (s : server) := match alookup ex_name s with
+                           | Some t => Some (map fst (t_fams t), map fst (t_rows t))
+                           | None => None end in
+  map (fun p => (fst p, view (restart (snd p)))) (snd (dstep ex_killed_delete (ex_create ex_fg)))
+  = [ (s_create_cleaned, None); (s_meta_tmp, None);
+      (s_meta_renamed, Some ([[102%N]; [103%N]], [])); (s_db_removed, Some ([[102%N]; [103%N]], [])) ]
+  /\ view (restart (image_of (fst (fst (dstep ex_killed_delete (ex_create ex_fg)))))) = Some ([[102%N]; [103%N]], [])
+  /\ ds_orphans (fst (fst (dstep ex_killed_delete (ex_create ex_fg)))) = [].
+Proof. vm_compute. repeat split; reflexivity. Qed.
+
+(* the double kill: create, write a row, DeleteTable killed at disk.delete.undefined, start,
+   CreateTable killed at disk.meta.renamed, start: the table is defined and EMPTY (before the
+   delete it held the row), and no directory is left without a definition *)
+Example C08_double_kill_table_empty :
+  dreach ex_double_kill
+  /\ ds_mem ex_double_kill = [(ex_name, mkTable (make_fams ex_fg) [])]
+  /\ ds_orphans ex_double_kill = []
+  /\ ex_double_kill = next_boot (fst (fst (dstep ex_killed_delete (ex_create ex_fg)))) (snd (dstep ex_killed_delete (ex_create ex_fg)))
+                                 (Some s_meta_renamed)
+  /\ alookup ex_name (restart (image_of ex_before_delete)) = Some (mkTable (make_fams ex_fg) ex_row97).
+Proof. exact double_kill_table_empty. Qed.
